@@ -199,6 +199,18 @@ TITLES = ["plain title", "Title with  two spaces", "searoad tracks =side blue= (
 ARTISTS = ["someone", "sasakure.UK / obj:moya", "作曲者 feat. X", "A"]
 OTHERS = [("PLAYER", "1"), ("GENRE", "Intelligence(7-OriginalEdit)"), ("TOTAL", "300"), ("RANK", "3"), ("STAGEFILE", "bg image.png"), ("DIFFICULTY", "5"), ("SUBTITLE", "[ANOTHER]")]
 EXBPM_POOL = ["177.5", "0.75", "128.571", "999.999", "60", "222.22", "33.3333", "1000", "150.0"]
+#: further `#KEY value` headers of real charts (5-character keys that are NOT #BPMxx / #WAVxx, keys with digits, values with ':' ',' ';' '//')
+OTHERS_MORE = [("BMP01", "bg 01.bmp"), ("VOLWAV", "100"), ("LNTYPE", "1"), ("BANNER", "banner.png"), ("SUBARTIST", "obj:someone, bga:other"), ("COMMENT", "\"re:start // 1,2,3; #4\""),
+               ("MAKER", "x;y"), ("BACKBMP", "back.bmp"), ("STOP01", "48"), ("BGA01", "01 0 0 256 256 0 0"), ("PREVIEW", "pre view.ogg")]
+#: keys that charts carry without any value (nothing to retain, the line must simply not disturb anything)
+VALUELESS = ["SUBTITLE", "BACKBMP", "COMMENT", "MAKER", "STAGEFILE"]
+#: text values with punctuation of the text format itself, a tab, and Shift-JIS specials: the wave dash / double bar / minus / cent / pound /
+#: not sign (bytes 81 60, 81 61, 81 7C, 81 91, 81 92, 81 CA), the double-byte space 81 40 INSIDE the value, half-width katakana
+#: (single bytes A1..DF) and double-byte characters whose second byte is 5C / 7C / 40
+TEXT_MORE = ["re:start // side-B", "1,2,3; #4 *5*", "tab\tinside", "夏祭り〜Summer Remix〜", "DJ A−B feat. C‖D", "¢£¬ ±×÷", "全角　スペース　入り", "ﾊﾝｶｸ ｶﾀｶﾅ｡", "ソ表能 十申ポ", "―‐／＼｜…", "ＡＢＣ＃１：２"]
+BPM_POOL_MORE = ["128.5714285", "0120", "120.", "99.99999", "1.5", "655.36", "12345.678"]
+EXBPM_POOL_MORE = ["128.5714285714", "0.125", "100.001", "59.94", "7", "4096.5", "173.333333"]
+COMMENTS = ["*---------------------- comment", "// #00111:0101 a commented-out line", "; #BPM 999", "%URL http://example.org/a#b", "＊〜コメント〜 ‖ −", "　", "\t"]
 
 
 def layout_of(name):
@@ -213,20 +225,27 @@ def _spacing_on_grid(beats):
     return all(((b - a) % 1).denominator <= 96 for a, b in zip(beats, beats[1:]))
 
 
-def gen_case(rng, layout_name, *, subdivs=SUBDIVS, n_lines=None, ln=False, order="shuffle", tempo="mixed", fine_tempo=False, via_file=False, measures=6, jp=True):
-    """Build the JSON-able description of one BMS text.  `lines` = [dict(m, ch, d, slots={j: id})] in file order."""
+def gen_case(rng, layout_name, *, subdivs=SUBDIVS, n_lines=None, ln=False, order="shuffle", tempo="mixed", fine_tempo=False, via_file=False, measures=6, jp=True, content="any", extras=True):
+    """Build the JSON-able description of one BMS text.  `lines` = [dict(m, ch, d, slots={j: id})] in file order.
+
+    content: "any" | "notes_only" (no tempo line) | "tempo_only" (no visible note) | "empty" (no data line at all);
+    extras: add the text / layout-of-the-file / call dimensions of `add_dimensions` as a mixture."""
     lay = layout_of(layout_name)
     lanes = note_lanes(lay)
     chans = sorted(c.decode() for c in lanes)
     lnobj = rng.choice(["ZZ", "ZY", "02", "AA"]) if ln or rng.random() < 0.3 else None
-    n_wav = rng.randrange(1, 12)
+    if content == "notes_only":
+        tempo = "none"
+    if content == "empty":
+        n_lines = 0
+    n_wav = 0 if extras and rng.random() < 0.06 else rng.randrange(1, 12)  # 0: a text without any #WAV line
     wav_ids = set()
     while len(wav_ids) < n_wav:
         i = b36(rng.randrange(1, 36 * 36)).decode()
         if i != lnobj:
             wav_ids.add(i)
     wav_ids = sorted(wav_ids)
-    if rng.random() < 0.2:
+    if wav_ids and rng.random() < 0.2:
         # ids are two base-36 characters; files in the wild also use lower case - consistently in #WAVxx and the data
         low = [i.lower() for i in wav_ids]
         if len(set(low)) == len(low) and (lnobj or "").lower() not in low:
@@ -236,12 +255,15 @@ def gen_case(rng, layout_name, *, subdivs=SUBDIVS, n_lines=None, ln=False, order
         wav = {k: v.replace("ピアノ", "piano") for k, v in wav.items()}
     no_wav_id = next(b36(k).decode() for k in range(1, 1296) if b36(k).decode() not in wav and b36(k).decode() != lnobj)
     ex_ids = sorted({b36(rng.randrange(1, 36 * 36)).decode() for _ in range(rng.randrange(1, 5))})
-    exbpm = {i: rng.choice(EXBPM_POOL) for i in ex_ids}
+    if extras and tempo in ("none", "int") and rng.random() < 0.5:
+        ex_ids = []  # no #BPMxx table at all (nothing refers to it)
+    more_num = extras and rng.random() < 0.3  # decimal texts with more digits, leading zero, trailing point
+    exbpm = {i: rng.choice(EXBPM_POOL + EXBPM_POOL_MORE if more_num else EXBPM_POOL) for i in ex_ids}
     header = dict(
         TITLE=rng.choice(TITLES if jp else TITLES[:3]),
         ARTIST=rng.choice(ARTISTS if jp else ARTISTS[:2]),
         PLAYLEVEL=str(rng.randrange(0, 30)),
-        BPM=rng.choice(["120", "130", "177.5", "60", "240", "89.99", "400"]),
+        BPM=rng.choice(["120", "130", "177.5", "60", "240", "89.99", "400"] + (BPM_POOL_MORE if more_num else [])),
     )
     others = dict(rng.sample(OTHERS, rng.randrange(0, 4)))
 
@@ -250,8 +272,8 @@ def gen_case(rng, layout_name, *, subdivs=SUBDIVS, n_lines=None, ln=False, order
     lines = []
     for _ in range(n_lines):
         r = rng.random()
-        if tempo != "none" and r < 0.22:
-            ch = "03" if tempo == "int" else "08" if tempo == "ext" else rng.choice(["03", "08"])
+        if tempo != "none" and (r < 0.22 or content == "tempo_only"):
+            ch = "03" if tempo == "int" or not ex_ids else "08" if tempo == "ext" else rng.choice(["03", "08"])
             group = "tempo"
         elif r < 0.30:
             ch = rng.choice(["01", "04"])  # BGM / BGA: no visible note
@@ -279,7 +301,7 @@ def gen_case(rng, layout_name, *, subdivs=SUBDIVS, n_lines=None, ln=False, order
             elif ch == "08":
                 v = rng.choice(ex_ids)
             else:
-                v = rng.choice(wav_ids) if rng.random() < 0.9 else no_wav_id
+                v = rng.choice(wav_ids) if wav_ids and rng.random() < 0.9 else no_wav_id
             slots[str(j)] = v
         if slots:
             lines.append(dict(m=m, ch=ch, d=d, slots=slots))
@@ -306,35 +328,166 @@ def gen_case(rng, layout_name, *, subdivs=SUBDIVS, n_lines=None, ln=False, order
                     prev_tail = True
                 else:
                     prev_tail = False
-    return dict(layout=layout_name, header=header, others=others, lnobj=lnobj, wav=wav, exbpm=exbpm, lines=lines, via_file=via_file, decor=rng.random() < 0.5)
+    case = dict(layout=layout_name, header=header, others=others, lnobj=lnobj, wav=wav, exbpm=exbpm, lines=lines, via_file=via_file, decor=rng.random() < 0.5)
+    if extras:
+        add_dimensions(rng, case, jp=jp)
+    return case
+
+
+def add_dimensions(rng, case, jp=True):
+    """Mixture of input dimensions the statement quantifies over but the basic generator holds fixed (each with a small probability, so
+    that every clause keeps being exercised by plain texts as well).  Everything is recorded in `case`, from which `source` rebuilds the input.
+
+      omitted headers      #TITLE / #ARTIST / #PLAYLEVEL absent (nothing is asserted about an absent field; objects must still be placed)
+      more headers         other `#KEY value` headers incl. 5-character keys that are not #BPMxx/#WAVxx; keys without a value;
+                           the table keys written '#wavXX' / '#bpmXX'
+      text                 ':' ',' ';' '#' '//' and a tab inside values; Shift-JIS punctuation (wave dash, double bar, minus ...), double-byte
+                           space inside a value, half-width katakana, second byte 5C/7C/40 - in header values, #WAV file names and comments
+      header placement     header lines in any order, after the data, or interleaved with the data lines (data lines keep their order)
+      measures             the whole chart shifted to measures up to 999 (large times)
+      io (in memory)       each line ending in '\n' / '\r\n' (as readlines() gives them), trailing / leading blanks around a line
+      io (file)            CRLF / LF / mixed line ends, trailing blank lines, no final line end, path as str / pathlib.Path, suffix .bms/.bme/.pms
+      call                 layout passed by keyword / positionally / not at all (the documented default is the BME layout) / through an instance"""
+    h = case["header"]
+    if rng.random() < 0.12:
+        for k in rng.sample(["TITLE", "ARTIST", "PLAYLEVEL"], rng.choice([1, 1, 2, 3])):
+            h.pop(k, None)
+    if rng.random() < 0.3:
+        for k, v in rng.sample(OTHERS_MORE, rng.randrange(1, 4)):
+            case["others"].setdefault(k, v)
+    if rng.random() < 0.15:
+        case["valueless"] = [k for k in rng.sample(VALUELESS, rng.randrange(1, 3)) if k not in case["others"]]
+    if rng.random() < 0.3:
+        pool = TEXT_MORE if jp else TEXT_MORE[:3]
+        for k in ("TITLE", "ARTIST"):
+            if k in h and rng.random() < 0.6:
+                h[k] = rng.choice(pool)
+        if rng.random() < 0.5:
+            case["others"]["GENRE"] = rng.choice(pool)
+        if jp and case["wav"] and rng.random() < 0.5:
+            k = rng.choice(sorted(case["wav"]))
+            case["wav"][k] = rng.choice(["ソロ 十_", "〜wave〜", "ｷｯｸ", "全角　名"]) + case["wav"][k]
+    if rng.random() < 0.1:
+        case["key_case"] = "lower_tables"
+    if rng.random() < 0.3:
+        case["comments"] = rng.sample(COMMENTS if jp else COMMENTS[:4], rng.randrange(1, 4))
+    n_head = len(_header_lines(case))
+    n_all = n_head + len(case["lines"])
+    r = rng.random()
+    if r < 0.30 and n_all:
+        hp = list(range(n_head))
+        rng.shuffle(hp)
+        dp = list(range(n_head, n_all))
+        how = rng.choice(["shuffled_top", "bottom", "interleaved"])
+        if how == "shuffled_top":
+            perm = hp + dp
+        elif how == "bottom":
+            perm = dp + hp
+        else:
+            perm = list(dp)
+            for i in hp:
+                perm.insert(rng.randrange(0, len(perm) + 1), i)
+        case["perm"] = perm
+    if case["lines"] and rng.random() < 0.1:
+        top = max(l["m"] for l in case["lines"])
+        shift = rng.choice([94, 500, 999 - top, rng.randrange(1, 999 - top + 1)])
+        if not any(l["ch"] in ("03", "08") and l["m"] == 0 and "0" in l["slots"] for l in case["lines"]):
+            for l in case["lines"]:
+                l["m"] += min(shift, 999 - top)
+    io = {}
+    if case.get("via_file"):
+        io["eol"] = rng.choice(["crlf", "crlf", "lf", "mixed"])
+        io["tail"] = rng.choice([0, 0, 1, 3])
+        io["final_eol"] = rng.random() < 0.7
+        io["path"] = rng.choice(["str", "Path"])
+        io["ext"] = rng.choice([".bms", ".bme", ".pms"])
+    else:
+        io["line_end"] = rng.choice(["", "", "\n", "\r\n"])
+        io["tail"] = rng.choice([0, 0, 2])
+    io["pad"] = rng.random() < 0.2
+    calls = ["kw", "kw", "pos", "instance"] + (["default", "default"] if case["layout"] == "BME" else [])
+    io["call"] = rng.choice(calls)
+    case["io"] = io
+    return case
+
+
+def _header_lines(case):
+    """the header lines of a case in canonical order (keys in lower case when case['key_case'] == 'lower')"""
+    low = case.get("key_case") == "lower"
+    K = (lambda k: k.lower()) if low else (lambda k: k)
+    T = (lambda k: k.lower()) if case.get("key_case") in ("lower", "lower_tables") else (lambda k: k)  # '#wav0A' / '#bpm0A' as old charts write them
+    out = []
+    for k, v in case["header"].items():
+        out.append(f"#{K(k)} {v}")
+    for k, v in case["others"].items():
+        out.append(f"#{K(k)} {v}")
+    for k in case.get("valueless") or []:
+        out.append(f"#{K(k)}")
+    if case["lnobj"]:
+        out.append(f"#{K('LNOBJ')} {case['lnobj']}")
+    for k, v in case["exbpm"].items():
+        out.append(f"#{T('BPM')}{k} {v}")
+    for k, v in case["wav"].items():
+        out.append(f"#{T('WAV')}{k} {v}")
+    return out
+
+
+def _data_line(l):
+    seq = ["00"] * l["d"]
+    for j, v in l["slots"].items():
+        seq[int(j)] = v
+    return "#%03d%s:%s" % (l["m"], l["ch"], "".join(seq))
 
 
 def render(case):
-    """case -> list of text lines (str)."""
+    """case -> list of text lines (str), without line ends."""
     out = []
     decor = case.get("decor")
+    comments = list(case.get("comments") or [])
+    head = _header_lines(case)
+    if case.get("perm") is not None:
+        # header lines placed anywhere among the data lines (the relative order of the data lines is kept)
+        allv = head + [_data_line(l) for l in case["lines"]]
+        assert sorted(case["perm"]) == list(range(len(allv)))
+        if decor:
+            out += ["", "*---------------------- HEADER FIELD", ""]
+        out += comments[:1]
+        for n, i in enumerate(case["perm"]):
+            out.append(allv[i])
+            if comments[1:] and n % 4 == 1:
+                out.append(comments[1 + (n // 4) % len(comments[1:])])
+        return out
     if decor:
         out += ["", "*---------------------- HEADER FIELD", ""]
-    for k, v in case["header"].items():
-        out.append(f"#{k} {v}")
-    for k, v in case["others"].items():
-        out.append(f"#{k} {v}")
-    if case["lnobj"]:
-        out.append(f"#LNOBJ {case['lnobj']}")
-    for k, v in case["exbpm"].items():
-        out.append(f"#BPM{k} {v}")
-    for k, v in case["wav"].items():
-        out.append(f"#WAV{k} {v}")
+    out += comments[:1]
+    out += head
     if decor:
         out += ["", "*---------------------- MAIN DATA FIELD", ""]
+    out += comments[1:]
     for l in case["lines"]:
-        seq = ["00"] * l["d"]
-        for j, v in l["slots"].items():
-            seq[int(j)] = v
-        out.append("#%03d%s:%s" % (l["m"], l["ch"], "".join(seq)))
+        out.append(_data_line(l))
         if decor and l["m"] % 2:
             out.append("")
     return out
+
+
+def source(case):
+    """What the reader is given: bytes (the content of the file, Shift-JIS) for a read_file case, else the list of str lines."""
+    lines = render(case)
+    io = case.get("io") or {}
+    if io.get("pad"):
+        lines = [("  " if i % 5 == 2 else "\t" if i % 7 == 3 else "") + ln + ("  " if i % 3 == 1 else " \t" if i % 11 == 5 else "") for i, ln in enumerate(lines)]
+    if case.get("via_file"):
+        if "io" not in case:  # the form of the cases saved before the io dimension existed
+            return "\r\n".join(lines).encode(ENC)
+        eol = io.get("eol", "crlf")
+        ends = [b"\r\n" if eol == "crlf" or (eol == "mixed" and i % 2 == 0) else b"\n" for i in range(len(lines))]
+        if ends and not io.get("final_eol", True) and not io.get("tail", 0):
+            ends[-1] = b""
+        out = b"".join(ln.encode(ENC) + e for ln, e in zip(lines, ends))
+        return out + (b"\n" if eol == "lf" else b"\r\n") * io.get("tail", 0)
+    end = io.get("line_end", "")
+    return [ln + end for ln in lines] + [end] * io.get("tail", 0)
 
 
 def classify(case):
@@ -356,7 +509,8 @@ def classify(case):
     first_tempo = next((l for l in case["lines"] if l["ch"] in ("03", "08")), None)
     has_m0 = any(l["ch"] in ("03", "08") and l["m"] == 0 and "0" in l["slots"] for l in case["lines"])
     m0_not_first = has_m0 and not (first_tempo["m"] == 0 and min(int(j) for j in first_tempo["slots"]) == 0)
-    return dict(ln_sensitive=ln_sensitive, fine_tempo=fine, m0_override_not_first=m0_not_first)
+    return dict(ln_sensitive=ln_sensitive, fine_tempo=fine, m0_override_not_first=m0_not_first,
+                no_bpm_header="BPM" not in case["header"], lower_keys=case.get("key_case") == "lower")
 
 
 # =============================================================================================== one case
@@ -369,19 +523,35 @@ def _txt(x):
 
 
 def read_real(case):
+    from pathlib import Path
+
     from reamber.bms.BMSMap import BMSMap
 
     lay = layout_of(case["layout"])
-    lines = render(case)
+    src = source(case)
+    io = case.get("io") or {}
+    call = io.get("call", "kw")
+    if call == "default":
+        assert case["layout"] == "BME"  # the documented default layout
+    owner = BMSMap() if call == "instance" else BMSMap
     if case.get("via_file"):
-        fd, p = tempfile.mkstemp(suffix=".bms")
+        fd, p = tempfile.mkstemp(suffix=io.get("ext", ".bms"))
         try:
             with os.fdopen(fd, "wb") as f:
-                f.write("\r\n".join(lines).encode(ENC))
-            return BMSMap.read_file(p, note_channel_config=lay)
+                f.write(src)
+            arg = Path(p) if io.get("path") == "Path" else p
+            if call == "default":
+                return owner.read_file(arg)
+            if call == "pos":
+                return owner.read_file(arg, lay)
+            return owner.read_file(arg, note_channel_config=lay)
         finally:
             os.unlink(p)
-    return BMSMap.read(lines, note_channel_config=lay)
+    if call == "default":
+        return owner.read(src)
+    if call == "pos":
+        return owner.read(src, lay)
+    return owner.read(src, note_channel_config=lay)
 
 
 def run_case(case):
@@ -390,11 +560,18 @@ def run_case(case):
     import warnings
 
     lay = layout_of(case["layout"])
-    den = den_bms(render(case), lay)
-    if den.problems or den.bad_lines:
-        raise AssertionError(f"generator left the property's domain: {den.problems} {den.bad_lines}")
+    den = den_bms(source(case), lay)
     cls = classify(case)
-    special = "ln_pairing_line_order" if cls["ln_sensitive"] else "tempo_spacing_off_snap_grid" if cls["fine_tempo"] else None
+    problems = list(den.problems)
+    if cls["no_bpm_header"]:
+        # the one text class without a #BPM header that the statement still determines completely: a tempo event at measure 0,
+        # position 0 gives the tempo from the start, so no default tempo is needed to place the objects
+        assert Fraction(0) in dict(den.tempo_beats) and den.bpm_text is None
+        problems.remove("no #BPM header")
+    if problems or den.bad_lines:
+        raise AssertionError(f"generator left the property's domain: {problems} {den.bad_lines}")
+    special = ("ln_pairing_line_order" if cls["ln_sensitive"] else "tempo_spacing_off_snap_grid" if cls["fine_tempo"]
+               else "no_bpm_header_tempo_from_measure0" if cls["no_bpm_header"] else "header_keys_lower_case" if cls["lower_keys"] else None)
     fails = []
 
     def fail(what, detail):
@@ -414,11 +591,15 @@ def run_case(case):
     # ---- header fields retained
     h = case["header"]
     for field, attr in (("TITLE", "title"), ("ARTIST", "artist"), ("PLAYLEVEL", "version")):
+        if field not in h:
+            continue  # header absent from the text: the statement says nothing about the field
         got = _txt(getattr(bms, attr))
         if got != h[field].encode(ENC):
             fail(f"header_{field.lower()}", f"{attr}={got!r} want {h[field].encode(ENC)!r}")
     for k, v in case["others"].items():
         got = _txt(bms.misc.get(k.encode()))
+        if got is None and case.get("key_case") == "lower":
+            got = _txt(bms.misc.get(k.lower().encode()))  # an other header is retained under its key; as written is as good as upper case
         if got != v.encode(ENC):
             fail("header_other", f"misc[{k}]={got!r} want {v!r}")
     for k, v in case["exbpm"].items():
@@ -439,7 +620,7 @@ def run_case(case):
     whole = len(den.tempo_beats) == 1 or den.tempo_beats[1][0] % 4 == 0
     try:
         b0 = bms.bpms[0]
-        ok_vals = {float(den.bpm0), float(den.tempo_beats[0][1])}
+        ok_vals = {float(den.tempo_beats[0][1])} | ({float(den.bpm0)} if den.bpm_text is not None else set())
         if not whole:
             pass
         elif abs(float(b0.offset)) > TOL_MS or not any(abs(float(b0.bpm) - v) <= 1e-9 for v in ok_vals):
@@ -490,12 +671,65 @@ def run_case(case):
     return fails
 
 
+def _fingerprint(bms):
+    """everything the statement speaks about, as plain values (deep copies)"""
+    import copy
+
+    return dict(
+        title=_txt(bms.title), artist=_txt(bms.artist), level=_txt(bms.version), lnobj=_txt(bms.ln_end_channel),
+        misc=copy.deepcopy(dict(bms.misc)), exbpms=copy.deepcopy(dict(bms.exbpms)), samples=copy.deepcopy(dict(bms.samples)),
+        hits=sorted(zip([int(c) for c in bms.hits.column], [float(o) for o in bms.hits.offset], [_txt(x) for x in bms.hits.sample])),
+        holds=sorted(zip([int(c) for c in bms.holds.column], [float(o) for o in bms.holds.offset], [float(x) for x in bms.holds.length], [_txt(x) for x in bms.holds.sample])),
+        tempo=[(float(o), float(b)) for o, b in zip(bms.bpms.offset, bms.bpms.bpm)],
+    )
+
+
+def _fp_diff(a, b):
+    return [f"{k}: {a[k]!r} -> {b[k]!r}"[:300] for k in a if a[k] != b[k]]
+
+
+def run_pair(case):
+    """case = dict(pair=[A, B]): read A, read B, read A again - in one process, both results alive.  The map read from a text is
+    determined by that text (columns, times, samples, header fields), so (1) the first result must still be what it was after the other
+    text has been read, and (2) reading the same text again must give the same values.  -> [(clause, detail)]"""
+    import logging
+    import warnings
+
+    a, b = case["pair"]
+    fails = []
+    logging.disable(logging.WARNING)
+    try:
+        with warnings.catch_warnings():
+            warnings.simplefilter("ignore")
+            try:
+                m1 = read_real(a)
+                f1 = _fingerprint(m1)
+                m2 = read_real(b)
+                f2 = _fingerprint(m2)
+                m3 = read_real(a)
+            except Exception:  # noqa: a text that cannot be read is reported by the single-text clauses
+                return fails
+            d = _fp_diff(f1, _fingerprint(m1))
+            if d:
+                fails.append(("earlier_result_changed_by_later_read", "after reading the second text, then the first again, the FIRST result changed: " + "; ".join(d[:3])))
+            d = _fp_diff(f2, _fingerprint(m2))
+            if d and not fails:
+                fails.append(("earlier_result_changed_by_later_read", "after reading the first text again, the result of the SECOND text changed: " + "; ".join(d[:3])))
+            d = _fp_diff(f1, _fingerprint(m3))
+            if d:
+                fails.append(("same_text_read_again_differs", "the first text read again after another text gives other values: " + "; ".join(d[:3])))
+    finally:
+        logging.disable(logging.NOTSET)
+    return fails
+
+
 # =============================================================================================== the check
 
 CLAUSES = (
     "read_raises hit_count hit_column_time hit_sample hold_count hold_column_time hold_length hold_sample header_title header_artist "
     "header_playlevel header_other header_extended_tempos header_wav_table header_lnobj header_initial_tempo "
-    "ln_pairing_line_order tempo_spacing_off_snap_grid"
+    "ln_pairing_line_order tempo_spacing_off_snap_grid no_bpm_header_tempo_from_measure0 header_keys_lower_case "
+    "earlier_result_changed_by_later_read same_text_read_again_differs"
 ).split()
 
 
@@ -559,6 +793,102 @@ def _witness_cases():
     yield dict(base, lnobj=None, lines=[dict(m=0, ch="03", d=768, slots={"1": "F0"}), dict(m=1, ch="11", d=1, slots={"0": "01"})])
 
 
+def _sjis_chars():
+    """Every character Shift-JIS encodes with lead byte 0x81 (JIS X 0208 rows 1-2: punctuation and symbols, incl. the double-byte space,
+    wave dash, double bar, minus, cent, pound, not sign), every half-width katakana (single bytes A1..DF), and for every lead byte the
+    characters whose second byte is one of 40 5C 7C 7E 80 9E 9F FC (ASCII look-alikes '@' '\\' '|' '~' and the row boundaries)."""
+    def ok(b):
+        try:
+            return b.decode(ENC).encode(ENC) == b and b.decode(ENC)
+        except UnicodeError:
+            return None
+
+    row1 = [c for c in (ok(bytes([0x81, t])) for t in range(0x40, 0xFD)) if c]
+    kana = [c for c in (ok(bytes([t])) for t in range(0xA1, 0xE0)) if c]
+    edge = [c for c in (ok(bytes([l, t])) for l in list(range(0x82, 0xA0)) + list(range(0xE0, 0xEB)) for t in (0x40, 0x5C, 0x7C, 0x7E, 0x80, 0x9E, 0x9F, 0xFC)) if c]
+    return row1, kana, edge
+
+
+def _grid_text_cases():
+    """Header text through both entry points: every character of `_sjis_chars` once inside a #TITLE / #ARTIST / #GENRE value, a #WAV file
+    name and a comment line (12 characters per value, between ASCII brackets so that no value starts or ends with a blank), one object
+    after a tempo change so that the placement clauses are exercised by the same text."""
+    row1, kana, edge = _sjis_chars()
+    chunks = []
+    for pool in (row1, kana, edge):
+        chunks += ["".join(pool[i : i + 12]) for i in range(0, len(pool), 12)]
+    k = 0
+    for i in range(0, len(chunks), 3):
+        a, b, c = (chunks + chunks[:2])[i : i + 3]
+        for via_file in (True, False):
+            name = LAYOUT_NAMES[k % 5]
+            k += 1
+            ch = sorted(note_lanes(layout_of(name)))[k % 5].decode()
+            yield dict(
+                layout=name,
+                header=dict(TITLE=f"[{a}]", ARTIST=f"<{b}>", PLAYLEVEL="3", BPM="150"),
+                others=dict(GENRE=f"({c})"),
+                lnobj=None,
+                wav={"0A": f"{a[:4]}x.wav"},
+                exbpm={"0A": "177.5"},
+                comments=[f"* {c} {a}"],
+                lines=[dict(m=1, ch="08", d=3, slots={"2": "0A"}), dict(m=2, ch=ch, d=4, slots={"1": "0A"})],
+                via_file=via_file,
+                decor=False,
+                io=dict(call="kw", eol="crlf", final_eol=True, tail=0, path="str", ext=".bms") if via_file else dict(call="kw", line_end=""),
+            )
+
+
+def _grid_small_cases():
+    """Smallest texts, each through read and read_file and with every way of passing the layout: no data line at all; one object and
+    nothing else; one tempo change and no object; an object at measure 0 position 0; an object exactly on a tempo change; objects of two
+    lanes at the same position; measure 999; no #WAV / #BPMxx table; #TITLE / #ARTIST / #PLAYLEVEL absent; headers after the data."""
+    base = dict(header=dict(TITLE="t", ARTIST="a", PLAYLEVEL="1", BPM="120"), others={}, lnobj=None, wav={"01": "a.wav"}, exbpm={"01": "88.5"}, decor=False)
+    texts = dict(
+        no_data=[],
+        one_object=[dict(m=0, ch="@0", d=1, slots={"0": "01"})],
+        one_tempo=[dict(m=1, ch="03", d=2, slots={"1": "5A"})],
+        on_tempo_change=[dict(m=1, ch="08", d=4, slots={"1": "01"}), dict(m=1, ch="@0", d=4, slots={"1": "01", "2": "01"}), dict(m=1, ch="@1", d=8, slots={"2": "01"})],
+        chord=[dict(m=0, ch="@0", d=2, slots={"1": "01"}), dict(m=0, ch="@1", d=4, slots={"2": "01"}), dict(m=0, ch="@2", d=2, slots={"1": "02"})],
+        measure_999=[dict(m=500, ch="03", d=1, slots={"0": "F0"}), dict(m=999, ch="@0", d=192, slots={"191": "01"})],
+        all_ln=[dict(m=1, ch="@0", d=2, slots={"0": "01", "1": "ZZ"}), dict(m=2, ch="@1", d=1, slots={"0": "01"}), dict(m=3, ch="@1", d=1, slots={"0": "ZZ"})],
+    )
+    k = 0
+    for name in LAYOUT_NAMES:
+        chans = sorted(c.decode() for c in note_lanes(layout_of(name)))
+        for label, lines in texts.items():
+            for variant in ("plain", "bare", "bottom"):
+                k += 1
+                via_file = k % 2 == 0
+                ls = [dict(l, ch=chans[int(l["ch"][1])] if l["ch"].startswith("@") else l["ch"], slots=dict(l["slots"])) for l in lines]
+                case = dict(base, layout=name, header=dict(base["header"]), wav=dict(base["wav"]), exbpm=dict(base["exbpm"]), lines=ls, via_file=via_file,
+                            lnobj="ZZ" if label == "all_ln" else None)
+                calls = ["kw", "pos", "instance"] + (["default"] if name == "BME" else [])
+                io = dict(call=calls[k % len(calls)], pad=False)
+                io.update(dict(eol=["crlf", "lf", "mixed"][k % 3], tail=k % 2, final_eol=bool(k % 3), path=["str", "Path"][k % 2], ext=[".bms", ".bme", ".pms"][k % 3]) if via_file
+                          else dict(line_end=["", "\n", "\r\n"][k % 3], tail=k % 2))
+                case["io"] = io
+                if variant == "bare":
+                    # only what the data needs: no #TITLE / #ARTIST / #PLAYLEVEL, no #WAV table, #BPMxx only when channel 08 is used
+                    case["header"] = dict(BPM="120")
+                    case["wav"] = {}
+                    if not any(l["ch"] == "08" for l in ls):
+                        case["exbpm"] = {}
+                elif variant == "bottom":
+                    n_head = len(_header_lines(case))
+                    case["perm"] = list(range(n_head, n_head + len(ls))) + list(range(n_head - 1, -1, -1))
+                yield case
+
+
+def _witness_new_classes():
+    """smallest members of the two header classes that have clauses of their own"""
+    base = dict(layout="BME", others={}, lnobj=None, wav={"01": "a.wav"}, exbpm={}, via_file=False, decor=False)
+    # no #BPM header, the tempo comes from a channel-03 object at measure 0 position 0
+    yield dict(base, header=dict(TITLE="t", ARTIST="a", PLAYLEVEL="1"), lines=[dict(m=0, ch="03", d=1, slots={"0": "78"}), dict(m=1, ch="11", d=1, slots={"0": "01"})])
+    # header keys written in lower case
+    yield dict(base, header=dict(TITLE="t", ARTIST="a", PLAYLEVEL="1", BPM="120"), key_case="lower", lines=[dict(m=1, ch="11", d=1, slots={"0": "01"})])
+
+
 @bounded("C04", note="generated BMS/BME/PMS texts read by the real BMSMap.read / read_file and compared with an independent exact BMS interpreter (den_bms), all five layouts")
 def bms_read_vs_interpreter(rep):
     rng = rep.rng
@@ -567,16 +897,46 @@ def bms_read_vs_interpreter(rep):
     if rep.tier == "quick":
         grid = grid[:: max(1, len(grid) // 400)]
     grid += list(_grid_ln_cases()) + list(_witness_cases())
+    n_old_grid = len(grid)
+    text_grid = list(_grid_text_cases())
+    small_grid = list(_grid_small_cases())
+    grid += text_grid + small_grid + list(_witness_new_classes())
+    row1, kana, edge = _sjis_chars()
     rep.bound = (
-        f"grid: {len(grid)} texts = single objects (5 layouts x every lane x subdivisions {SUBDIVS} x slot first/middle/last x integer|extended tempo change before it"
+        f"grid: {n_old_grid} texts = single objects (5 layouts x every lane x subdivisions {SUBDIVS} x slot first/middle/last x integer|extended tempo change before it"
         f"{'' if rep.tier != 'quick' else ', strided subset in the quick tier'}) + one long note across a tempo change per layout x lane x 3 subdivisions + 4 hand-made witnesses of the two special classes; "
-        f"random: {N} texts over 5 layouts, 1..13 data lines in measures 0..5, subdivisions {SUBDIVS}, channels 03/08 at any slot, #LNOBJ long notes, repeated (measure, channel) lines, "
-        f"shuffled lines, #WAV table, BGM/BGA lines, Shift-JIS header text, 1/5 through read_file; plus classes: LN with fully shuffled lines, tempo changes at subdivisions {FINE_SUBDIVS} (distance between consecutive tempo events not a multiple of any 1/d beat, d <= 96)"
+        f"text grid: {len(text_grid)} texts = every Shift-JIS character with lead byte 81 ({len(row1)}), every half-width katakana ({len(kana)}) and {len(edge)} double-byte characters with second byte 40/5C/7C/7E/80/9E/9F/FC, "
+        f"each once in #TITLE/#ARTIST/#GENRE, a #WAV name and a comment, through read_file AND read; "
+        f"small grid: {len(small_grid)} texts = 5 layouts x (no data line | one object at measure 0 position 0 | one tempo change, no object | object exactly on a tempo change | chord | measure 999 | only long notes) "
+        f"x (full header | only #BPM, no #WAV table | headers after the data), alternating read/read_file, layout passed by keyword / positionally / through an instance / omitted (BME), "
+        f"line ends '' / LF / CRLF (lines) and CRLF / LF / mixed, trailing blank lines, no final line end, str / pathlib.Path, .bms/.bme/.pms (file); + 2 witnesses of the header classes; "
+        f"random: {N} texts over 5 layouts, 0..13 data lines in measures 0..5 (1/10 shifted up to measure 999), subdivisions {SUBDIVS}, channels 03/08 at any slot, #LNOBJ long notes, repeated (measure, channel) lines, "
+        f"shuffled lines, #WAV table (possibly empty), BGM/BGA lines, Shift-JIS header text, 1/4 through read_file; plus classes: LN with fully shuffled lines, tempo changes at subdivisions {FINE_SUBDIVS} (distance between consecutive tempo events not a multiple of any 1/d beat, d <= 96); "
+        f"mixture on every random text (add_dimensions): absent #TITLE/#ARTIST/#PLAYLEVEL, {len(OTHERS_MORE)} more other headers, keys without value, '#wavXX' / '#bpmXX' table keys, ':' ',' ';' '#' '//' tab and Shift-JIS punctuation / double-byte space / half-width kana in values, #WAV names and comments, "
+        f"header lines shuffled / after / between the data lines, decimal tempo texts with up to 13 digits, leading zero or trailing point, padded lines, line-end and call variants as in the small grid; "
+        f"notes-only, tempo-only and empty texts (1/10); texts without #BPM whose tempo comes from measure 0 position 0, texts with lower-case header keys (1/40 each, clauses of their own); "
+        f"{rep.n(30, 300)} pairs of random texts read A, B, A in one process (state between calls)"
     )
-    rep.rule = "a case is one BMS text + layout; non-trivial when it has >= 1 tempo event after beat 0 and >= 1 note object, or a long note"
+    rep.rule = ("a case is one BMS text + layout + the way it is handed to the reader (or a pair of such); non-trivial when it has >= 1 tempo event after beat 0 and >= 1 note object, or a long note; "
+                "a pair is non-trivial when the two texts differ in header tables and objects")
     seen = {w: 0 for w in CLAUSES}
     klass = dict(plain=0, ln_safe=0, ln_sensitive=0, fine_tempo=0, via_file=0, m0_override_not_first=0, observed_two_tempo_points_at_0ms=0)
     klass["observed_initial_tempo_reexpressed_by_reseat_(first_change_mid_measure)"] = 0
+    dims = {}
+
+    def count_dims(case):
+        io = case.get("io") or {}
+        flags = dict(
+            no_data_line=not case["lines"], no_wav_table=not case["wav"], no_exbpm_table=not case["exbpm"], header_field_absent=len(case["header"]) < 4,
+            valueless_key=bool(case.get("valueless")), headers_moved=case.get("perm") is not None, comments=bool(case.get("comments")),
+            non_ascii_text=any(ord(c) > 127 for v in list(case["header"].values()) + list(case["others"].values()) + list(case["wav"].values()) for c in v),
+            measure_over_99=any(l["m"] > 99 for l in case["lines"]), padded_lines=bool(io.get("pad")), layout_omitted=io.get("call") == "default",
+            layout_positional=io.get("call") == "pos", through_instance=io.get("call") == "instance", path_object=io.get("path") == "Path",
+            lines_with_line_end=bool(io.get("line_end")), file_lf_or_mixed=io.get("eol") in ("lf", "mixed"), trailing_blank_lines=bool(io.get("tail")),
+            no_bpm_header="BPM" not in case["header"], lower_case_keys=case.get("key_case") == "lower", lower_case_table_keys=case.get("key_case") == "lower_tables",
+        )
+        for k, v in flags.items():
+            dims[k] = dims.get(k, 0) + bool(v)
 
     def one(case):
         lanes = note_lanes(layout_of(case["layout"]))
@@ -588,6 +948,7 @@ def bms_read_vs_interpreter(rep):
         klass["ln_sensitive" if c["ln_sensitive"] else "fine_tempo" if c["fine_tempo"] else "ln_safe" if has_ln else "plain"] += 1
         klass["via_file"] += bool(case.get("via_file"))
         klass["m0_override_not_first"] += bool(c["m0_override_not_first"])
+        count_dims(case)
         run_case.last_obs = {}
         for what, d in run_case(case):
             seen[what] = seen.get(what, 0) + 1
@@ -598,30 +959,61 @@ def bms_read_vs_interpreter(rep):
             klass["observed_initial_tempo_reexpressed_by_reseat_(first_change_mid_measure)"] += 1
 
     for case in grid:
-        if rep.out_of_time(12, 120):
+        if rep.out_of_time(20, 150):
             break
         one(case)
+    n_pairs = 0
     for i in range(N):
         if rep.out_of_time(40, 420):
             break
         name = LAYOUT_NAMES[i % 5]
         mode = i % 10
-        via_file = rng.random() < 0.2
+        via_file = rng.random() < 0.25
+        content = rng.choice(["notes_only", "tempo_only", "empty"]) if rng.random() < 0.1 else "any"
         if mode in (0, 1, 2, 3):
-            case = gen_case(rng, name, ln=False, via_file=via_file)
+            case = gen_case(rng, name, ln=False, via_file=via_file, content=content)
         elif mode in (4, 5, 6):
-            case = gen_case(rng, name, ln=True, order="safe", via_file=via_file)
+            case = gen_case(rng, name, ln=True, order="safe", via_file=via_file, content=content)
         elif mode in (7, 8):
             case = gen_case(rng, name, ln=True, order="shuffle", via_file=via_file)
         else:
             case = gen_case(rng, name, ln=rng.random() < 0.3, order="safe", fine_tempo=True, via_file=via_file)
+        if mode < 7 and i % 40 == 13:
+            # class with a clause of its own: no #BPM header, tempo from a channel-03 object at measure 0 position 0 (moved to the front so
+            # that the measure-0 object is also the first tempo object of the file)
+            case["header"].pop("BPM", None)
+            case["lines"] = [l for l in case["lines"] if not (l["ch"] in ("03", "08") and l["m"] == 0 and "0" in l["slots"])]
+            case["lines"].insert(0, dict(m=0, ch="03", d=1, slots={"0": "%02X" % rng.choice([60, 120, 150, 200])}))
+            case.pop("perm", None)
+        elif mode < 7 and i % 40 == 33:
+            case["key_case"] = "lower"  # class with a clause of its own
         one(case)
+        if n_pairs < rep.n(30, 300) and i % 5 == 4:
+            # two texts that have NOT been read before in this process (a table that only accumulates would otherwise already hold their
+            # entries): read A, B, A; afterwards each is also checked on its own like every other text
+            pair = []
+            while len(pair) < 2:
+                x = gen_case(rng, LAYOUT_NAMES[(i + len(pair)) % 5], ln=rng.random() < 0.4, order="safe", via_file=rng.random() < 0.25)
+                c = classify(x)
+                if not (c["ln_sensitive"] or c["fine_tempo"]):
+                    pair.append(x)
+            pair = dict(pair=pair)
+            a, b = pair["pair"]
+            rep.case(pair, nontrivial=a["wav"] != b["wav"] and a["lines"] != b["lines"])
+            n_pairs += 1
+            for what, d in run_pair(pair):
+                seen[what] = seen.get(what, 0) + 1
+                rep.fail(what, pair, d)
+            one(a)
+            one(b)
     rep.extra["cases_by_class"] = klass
+    rep.extra["cases_by_dimension"] = dims
+    rep.extra["pairs"] = n_pairs
     rep.extra["failures_by_clause"] = {k: v for k, v in seen.items() if v}
 
 
 @replayer("bms_read_vs_interpreter")
 def _replay(case, what):
-    failed = run_case(case)
+    failed = run_pair(case) if "pair" in case else run_case(case)
     hit = [d for w, d in failed if w == what]
     return (bool(hit), hit[0] if hit else "passes")
